@@ -219,9 +219,9 @@ func writer(s *simrt.Sim) {
 				got, ok := w.stored(o.id)
 				s.Fail("stop-waits", "enqueued-before-stop-not-written", "StopBatchWriter returned but obj%d v%d (Enqueue returned before Stop was invoked) is not committed: last commit seen v%d, store has v%d (present=%v)", o.id, need, o.committed, got, ok)
 			}
-			if o.dones != o.writes {
-				s.Fail("stop-waits", "done-pending-at-stop-return", "StopBatchWriter returned with %d BatchWrite but %d BatchWriteDone calls for obj%d", o.writes, o.dones, o.id)
-			}
+			// (o.committed is only advanced by BatchWriteDone, after the commit was verified: committed >= need says that the
+			// write, its commit and its BatchWriteDone have all happened; a BatchWrite of a LATER Enqueue may be in
+			// progress at this moment - e.g. an implementation that writes late Enqueues through directly)
 		}
 	}
 	doStop := func(what string) {
